@@ -1,6 +1,851 @@
 import PyCliffordModel.Proofs.Tableau
 import PyCliffordModel.Proofs.StateLemmas
-/-! # Proofs/MeasureLemmas — helper lemmas for C06/C07 (measurement and expectation at the level of the stabilizer group) -/
-namespace PC
+/-! # Proofs/MeasureLemmas — helper lemmas for C06/C07 (measurement and expectation at the level of the stabilizer group)
 
+Layout:
+* §1 products of pairwise commuting Hermitian rows (`CommHerm`): the phase of a combination is even
+  (`combineAux_even`), the product of two combinations is the combination of the xor of the selectors
+  (`combineAux_mul`), one-hot selectors (`combineAux_onehot`);
+* §2 the signed stabilizer group `InGroup`: identity, active rows, closure under products (`inGroup_mul`),
+  uniqueness of the sign (`inGroup_phase_unique`), commutation with the rows below `n + r`
+  (`inGroup_comm_low`);
+* §3 the deterministic scan is a combination of active rows (`scanAcc_eq_combine`, `det_spec`);
+* §4 `expectAux` (`expectAux_clean`, `expectAux_dirty`);
+* §5 the post-measurement state `pivotState` row by row.
+-/
+namespace PC
+namespace Ms
+
+/-! ## §1 products of commuting Hermitian rows -/
+
+theorem pauli_eq (a b : Pauli) (hg : a.g = b.g) (hp : a.p = b.p) : a = b := by
+  cases a; cases b; simp_all
+
+theorem mul_congr_right (a : Pauli) {b b' : Pauli} (h : PEq b b') : PEq (mul a b) (mul a b') := by
+  obtain ⟨hg, hp⟩ := h
+  refine ⟨by simp only [mul_g, hg], ?_⟩
+  simp only [mul_p, hg]; omega
+
+theorem mul_comm_of_comm (P Q : Pauli) (h : acq P.g Q.g = 0) : mul P Q = mul Q P := by
+  obtain ⟨hg, hp⟩ := mul_comm_acq P Q
+  have hr := mul_p_range Q P
+  exact pauli_eq _ _ hg (by rw [hp, h]; omega)
+
+/-- pairwise commuting Hermitian operators on `n` qubits -/
+def CommHerm (n : Nat) (rows : List Pauli) : Prop :=
+  (∀ R ∈ rows, R.g.length = n ∧ R.p % 2 = 0) ∧ ∀ R ∈ rows, ∀ R' ∈ rows, acq R.g R'.g = 0
+
+theorem CommHerm.tail {n : Nat} {R : Pauli} {rs : List Pauli} (h : CommHerm n (R :: rs)) : CommHerm n rs :=
+  ⟨fun R' h' => h.1 R' (by simp [h']), fun A hA B hB => h.2 A (by simp [hA]) B (by simp [hB])⟩
+
+theorem CommHerm.len {n : Nat} {rows : List Pauli} (h : CommHerm n rows) : ∀ R ∈ rows, R.g.length = n :=
+  fun R hR => (h.1 R hR).1
+
+/-- the phase of a product of commuting Hermitian operators is even -/
+theorem combineAux_even (n : Nat) : ∀ (rows : List Pauli) (c : List Bool) (acc : Pauli), CommHerm n rows →
+    acc.g.length = n → acc.p % 2 = 0 → (∀ R ∈ rows, acq acc.g R.g = 0) →
+    (combineAux c rows acc).p % 2 = 0 := by
+  intro rows
+  induction rows with
+  | nil => intro c acc _ _ hp _; rw [Tr.combineAux_nil_right]; exact hp
+  | cons R rs ih =>
+    intro c acc hC hl hp hc
+    cases c with
+    | nil => rw [Tr.combineAux_nil_left]; exact hp
+    | cons b cs =>
+      rw [Tr.combineAux_cons]
+      have hR := hC.1 R (by simp)
+      have hcs : ∀ R' ∈ rs, acq acc.g R'.g = 0 := fun R' h' => hc R' (by simp [h'])
+      cases b with
+      | false => exact ih cs acc hC.tail hl hp hcs
+      | true =>
+        rw [if_pos rfl]
+        apply ih cs (mul acc R) hC.tail (by rw [length_mul _ _ (hl.trans hR.1.symm)]; exact hl)
+        · have hpar := ipow_parity acc.g R.g
+          rw [hc R (by simp)] at hpar
+          rw [mul_p]; omega
+        · intro R' h'
+          rw [mul_g, acq_xorS_left _ _ _ (hl.trans hR.1.symm), hcs R' h', hC.2 R (by simp) R' (by simp [h'])]
+          rfl
+
+theorem combineAux_p_range : ∀ (rows : List Pauli) (c : List Bool) (acc : Pauli), 0 ≤ acc.p ∧ acc.p < 4 →
+    0 ≤ (combineAux c rows acc).p ∧ (combineAux c rows acc).p < 4 := by
+  intro rows
+  induction rows with
+  | nil => intro c acc hp; rw [Tr.combineAux_nil_right]; exact hp
+  | cons R rs ih =>
+    intro c acc hp
+    cases c with
+    | nil => rw [Tr.combineAux_nil_left]; exact hp
+    | cons b cs =>
+      rw [Tr.combineAux_cons]
+      cases b with
+      | false => exact ih cs acc hp
+      | true => rw [if_pos rfl]; exact ih cs _ (mul_p_range acc R)
+
+/-- xor of two selectors -/
+def xorL (c d : List Bool) : List Bool := List.zipWith (fun a b => a != b) c d
+
+theorem length_xorL (c d : List Bool) (h : c.length = d.length) : (xorL c d).length = c.length := by
+  simp [xorL, h]
+
+/-- **the product of two combinations of commuting Hermitian rows is the combination selected by the xor** -/
+theorem combineAux_mul (n : Nat) : ∀ (rows : List Pauli) (c d : List Bool) (a1 a2 : Pauli), CommHerm n rows →
+    c.length = rows.length → d.length = rows.length → a1.g.length = n → a2.g.length = n →
+    (∀ R ∈ rows, acq a2.g R.g = 0) →
+    PEq (mul (combineAux c rows a1) (combineAux d rows a2)) (combineAux (xorL c d) rows (mul a1 a2)) := by
+  intro rows
+  induction rows with
+  | nil => intro c d a1 a2 _ _ _ _ _ _; simp only [Tr.combineAux_nil_right]; exact PEq.refl _
+  | cons R rs ih =>
+    intro c d a1 a2 hC hc hd h1 h2 hcm
+    cases c with
+    | nil => simp at hc
+    | cons b cs =>
+    cases d with
+    | nil => simp at hd
+    | cons e ds =>
+      have hR := hC.1 R (by simp)
+      have hcs : cs.length = rs.length := by simpa using hc
+      have hds : ds.length = rs.length := by simpa using hd
+      have h2R : acq a2.g R.g = 0 := hcm R (by simp)
+      have hcm' : ∀ R' ∈ rs, acq a2.g R'.g = 0 := fun R' h' => hcm R' (by simp [h'])
+      have hx : xorL (b :: cs) (e :: ds) = (b != e) :: xorL cs ds := by simp [xorL]
+      rw [hx, Tr.combineAux_cons, Tr.combineAux_cons, Tr.combineAux_cons]
+      have l1 : (if b = true then mul a1 R else a1).g.length = n := by
+        cases b
+        · simpa using h1
+        · rw [if_pos rfl, length_mul _ _ (h1.trans hR.1.symm)]; exact h1
+      have l2 : (if e = true then mul a2 R else a2).g.length = n := by
+        cases e
+        · simpa using h2
+        · rw [if_pos rfl, length_mul _ _ (h2.trans hR.1.symm)]; exact h2
+      have hcm2 : ∀ R' ∈ rs, acq (if e = true then mul a2 R else a2).g R'.g = 0 := by
+        intro R' h'
+        cases e
+        · simpa using hcm' R' h'
+        · rw [if_pos rfl, mul_g, acq_xorS_left _ _ _ (h2.trans hR.1.symm), hcm' R' h',
+            hC.2 R (by simp) R' (by simp [h'])]; rfl
+      refine (ih cs ds _ _ hC.tail hcs hds l1 l2 hcm2).trans (Tr.combineAux_congr _ _ ?_)
+      have e12 : a1.g.length = a2.g.length := h1.trans h2.symm
+      have e1R : a1.g.length = R.g.length := h1.trans hR.1.symm
+      have e2R : a2.g.length = R.g.length := h2.trans hR.1.symm
+      cases b <;> cases e
+      · exact PEq.refl _
+      · simp only [Bool.false_eq_true, if_false, if_true, bne]
+        rw [← mul_assoc a1 a2 R e12 e2R]; exact PEq.refl _
+      · simp only [Bool.false_eq_true, if_false, if_true, bne]
+        rw [mul_assoc a1 R a2 e1R e2R.symm, mul_comm_of_comm R a2 (by rw [acq_symm]; exact h2R),
+          ← mul_assoc a1 a2 R e12 e2R]
+        exact PEq.refl _
+      · simp only [if_true, bne]
+        have hRR : mul R R = ⟨idStr a2.g.length, 0⟩ := by
+          rw [mul_self, e2R]; congr 1; omega
+        rw [mul_assoc a1 R (mul a2 R) e1R (by rw [length_mul _ _ e2R]; exact e2R.symm),
+          mul_comm_of_comm a2 R h2R, ← mul_assoc R R a2 rfl e2R.symm, hRR, mul_one_left]
+        exact mul_congr_right a1 ⟨rfl, by simp⟩
+
+/-- a one-hot selector picks one row -/
+theorem combineAux_onehot : ∀ (a : Nat) (rows : List Pauli) (m : Nat) (acc : Pauli), a < rows.length →
+    combineAux (List.replicate a false ++ true :: List.replicate m false) rows acc = mul acc (rowAt rows a) := by
+  intro a
+  induction a with
+  | zero =>
+    intro rows m acc h
+    cases rows with
+    | nil => simp at h
+    | cons R rs =>
+      simp only [List.replicate_zero, List.nil_append, Tr.combineAux_cons, if_true, rowAt_cons_zero]
+      exact St.combineAux_replicate_false m rs _
+  | succ a ih =>
+    intro rows m acc h
+    cases rows with
+    | nil => simp at h
+    | cons R rs =>
+      rw [List.replicate_succ, List.cons_append, Tr.combineAux_cons, rowAt_cons_succ]
+      exact ih rs m acc (by simpa using h)
+
+/-! ## §2 the signed stabilizer group -/
+
+theorem active_row_exists (st : State) (n : Nat) (h : TabInv st n) (R : Pauli) (hR : R ∈ st.active) :
+    ∃ k, k < n - st.r ∧ R = rowAt st.rows (st.r + k) := by
+  have hlen := St.length_active st n h
+  obtain ⟨k, hk, rfl⟩ := exists_rowAt_of_mem _ R hR
+  rw [hlen] at hk
+  exact ⟨k, hk, St.rowAt_active st n h k hk⟩
+
+/-- the active stabilizers are pairwise commuting Hermitian operators -/
+theorem active_commHerm (st : State) (n : Nat) (h : TabInv st n) : CommHerm n st.active := by
+  refine ⟨fun R hR => ?_, fun R hR R' hR' => ?_⟩
+  · obtain ⟨k, hk, rfl⟩ := active_row_exists st n h R hR
+    exact ⟨h.2.2.1 _ (rowAt_mem _ _ (by rw [h.1]; omega)), h.2.2.2.2 (st.r + k) (by omega) (by omega)⟩
+  · obtain ⟨k, hk, rfl⟩ := active_row_exists st n h R hR
+    obtain ⟨k', hk', rfl⟩ := active_row_exists st n h R' hR'
+    rw [h.2.2.2.1 _ _ (by omega) (by omega), if_neg (by omega)]
+
+theorem inGroup_congr {st : State} {P Q : Pauli} (h : InGroup st P) (e : PEq P Q) : InGroup st Q := by
+  obtain ⟨c, hc, hp⟩ := h
+  exact ⟨c, hc, hp.trans e⟩
+
+theorem inGroup_one (st : State) (n : Nat) (h : TabInv st n) : InGroup st ⟨idStr n, 0⟩ := by
+  refine ⟨List.replicate st.active.length false, by simp, ?_⟩
+  rw [St.combine_all_false, St.tabInv_N st n h]
+  exact PEq.refl _
+
+/-- **the signed stabilizer group is closed under products** -/
+theorem inGroup_mul {st : State} {n : Nat} (h : TabInv st n) {A B : Pauli} (hA : InGroup st A)
+    (hB : InGroup st B) : InGroup st (mul A B) := by
+  obtain ⟨c, hc, eA⟩ := hA
+  obtain ⟨d, hd, eB⟩ := hB
+  have hN := St.tabInv_N st n h
+  have hC := active_commHerm st n h
+  refine ⟨xorL c d, by rw [length_xorL _ _ (hc.trans hd.symm)]; exact hc, ?_⟩
+  have hl : (⟨idStr st.N, 0⟩ : Pauli).g.length = n := by rw [hN]; exact length_idStr n
+  have key := combineAux_mul n st.active c d ⟨idStr st.N, 0⟩ ⟨idStr st.N, 0⟩ hC hc hd hl hl
+    (fun R _ => acq_idStr_left _ _)
+  have e0 : PEq (PC.mul ⟨idStr st.N, 0⟩ ⟨idStr st.N, 0⟩) ⟨idStr st.N, 0⟩ := by
+    refine ⟨?_, ?_⟩
+    · simp only [mul_g]; rw [xorS_self, length_idStr]
+    · simp only [mul_p]; rw [ipow_idStr_left]; rfl
+  unfold combine at eA eB ⊢
+  exact (((Tr.combineAux_congr _ _ e0).symm.trans key.symm).trans (Tr.mul_congr_left eA _)).trans
+    (mul_congr_right _ eB)
+
+/-- the sign of a stabilizer is determined by its string -/
+theorem inGroup_phase_unique (st : State) (n : Nat) (h : TabInv st n) {P Q : Pauli} (hP : InGroup st P)
+    (hQ : InGroup st Q) (hg : P.g = Q.g) : P.p % 4 = Q.p % 4 := by
+  obtain ⟨c, hc, eP⟩ := hP
+  obtain ⟨d, hd, eQ⟩ := hQ
+  have hl := St.length_active st n h
+  have : c = d := St.combine_injective st n h c d (hc.trans hl) (hd.trans hl) (by rw [eP.1, eQ.1, hg])
+  subst this
+  rw [← eP.2, ← eQ.2]
+
+/-- the phase of a stabilizer is even -/
+theorem inGroup_even (st : State) (n : Nat) (h : TabInv st n) {P : Pauli} (hP : InGroup st P) : P.p % 2 = 0 := by
+  obtain ⟨c, hc, eP⟩ := hP
+  have := combineAux_even n st.active c ⟨idStr st.N, 0⟩ (active_commHerm st n h)
+    (by rw [St.tabInv_N st n h]; exact length_idStr n) rfl (fun R _ => acq_idStr_left _ _)
+  have e := eP.2
+  unfold combine at e
+  omega
+
+/-- a stabilizer commutes with every stabilizer row (standby or active) and every standby destabilizer -/
+theorem inGroup_comm_low (st : State) (n : Nat) (h : TabInv st n) {P : Pauli} (hP : InGroup st P) (j : Nat)
+    (hj : j < n + st.r) : acq P.g (gAt st.rows j) = 0 := by
+  obtain ⟨c, hc, eP⟩ := hP
+  rw [← eP.1]
+  unfold combine
+  have := St.acq_combineAux_commute n (gAt st.rows j) c st.active ⟨idStr st.N, 0⟩ (St.active_rows_length st n h)
+    (by rw [St.tabInv_N st n h]; exact length_idStr n) (by
+      intro R hR
+      obtain ⟨k, hk, rfl⟩ := active_row_exists st n h R hR
+      unfold gAt
+      rw [h.2.2.2.1 _ _ (by omega) (by omega), if_neg (by omega)])
+  rw [this]
+  exact acq_idStr_left _ _
+
+/-- every active row is a stabilizer -/
+theorem inGroup_active_row (st : State) (n : Nat) (h : TabInv st n) (k : Nat) (hk1 : st.r ≤ k) (hk2 : k < n) :
+    InGroup st (rowAt st.rows k) := by
+  have hl := St.length_active st n h
+  have hN := St.tabInv_N st n h
+  refine ⟨List.replicate (k - st.r) false ++ true :: List.replicate (n - 1 - k) false, by simp [hl]; omega, ?_⟩
+  unfold combine
+  rw [combineAux_onehot _ _ _ _ (by rw [hl]; omega), St.rowAt_active st n h _ (by omega)]
+  have e : st.r + (k - st.r) = k := by omega
+  rw [e]
+  have hlen : (rowAt st.rows k).g.length = n := h.2.2.1 _ (rowAt_mem _ _ (by rw [h.1]; omega))
+  rw [hN, ← hlen, mul_one_left]
+  exact ⟨rfl, by simp⟩
+
+/-- a combination of stabilizers is a stabilizer -/
+theorem combineAux_inGroup (st : State) (n : Nat) (h : TabInv st n) : ∀ (rows : List Pauli) (c : List Bool)
+    (acc : Pauli), InGroup st acc →
+    (∀ k, k < rows.length → c.getD k false = true → InGroup st (rowAt rows k)) →
+    InGroup st (combineAux c rows acc) := by
+  intro rows
+  induction rows with
+  | nil => intro c acc ha _; rw [Tr.combineAux_nil_right]; exact ha
+  | cons R rs ih =>
+    intro c acc ha hr
+    cases c with
+    | nil => rw [Tr.combineAux_nil_left]; exact ha
+    | cons b cs =>
+      rw [Tr.combineAux_cons]
+      apply ih cs
+      · cases b with
+        | false => simpa using ha
+        | true =>
+          rw [if_pos rfl]
+          have := hr 0 (by simp) (by simp)
+          rw [rowAt_cons_zero] at this
+          exact inGroup_mul h ha this
+      · intro k hk hck
+        have := hr (k + 1) (by simp; omega) (by simpa using hck)
+        rwa [rowAt_cons_succ] at this
+
+/-! ## §3 the deterministic scan is a combination of the active rows -/
+
+theorem scanAcc_clean (T0 : List Pauli) (obs : PStr) (N : Nat) : ∀ (rows : List Pauli) (j : Nat) (acc : Pauli),
+    (∀ i, i < rows.length → anti (rowAt rows i).g obs = false) → scanAcc T0 obs N j rows acc = acc := by
+  intro rows
+  induction rows with
+  | nil => intro j acc _; rfl
+  | cons R rs ih =>
+    intro j acc hc
+    have h0 := hc 0 (by simp)
+    rw [rowAt_cons_zero] at h0
+    rw [scanAcc_cons, h0]
+    simp only [Bool.false_eq_true, if_false]
+    apply ih
+    intro i hi
+    have := hc (i + 1) (by simp; omega)
+    rwa [rowAt_cons_succ] at this
+
+theorem scanAcc_append (T0 : List Pauli) (obs : PStr) (N : Nat) : ∀ (A B : List Pauli) (j : Nat) (acc : Pauli),
+    scanAcc T0 obs N j (A ++ B) acc = scanAcc T0 obs N (j + A.length) B (scanAcc T0 obs N j A acc) := by
+  intro A
+  induction A with
+  | nil => intro B j acc; rfl
+  | cons R rs ih =>
+    intro B j acc
+    rw [List.cons_append, scanAcc_cons, scanAcc_cons, ih]
+    congr 1
+    simp; omega
+
+/-- the accumulated product is the combination selected by "partner anticommutes with the observable" -/
+theorem scanAcc_eq_combineAux (T0 : List Pauli) (obs : PStr) (N : Nat) : ∀ (rows S : List Pauli) (j : Nat)
+    (acc : Pauli), S.length = rows.length → (∀ k, k < rows.length → rowAt T0 (j + k - N) = rowAt S k) →
+    scanAcc T0 obs N j rows acc = combineAux (rows.map fun R => anti R.g obs) S acc := by
+  intro rows
+  induction rows with
+  | nil => intro S j acc _ _; simp [scanAcc, Tr.combineAux_nil_left]
+  | cons R rs ih =>
+    intro S j acc hl hS
+    cases S with
+    | nil => simp at hl
+    | cons s ss =>
+      rw [scanAcc_cons, List.map_cons, Tr.combineAux_cons]
+      have h0 := hS 0 (by simp)
+      rw [Nat.add_zero, rowAt_cons_zero] at h0
+      rw [h0]
+      apply ih ss (j + 1) _ (by simpa using hl)
+      intro k hk
+      have := hS (k + 1) (by simp; omega)
+      rw [rowAt_cons_succ] at this
+      rw [← this]
+      congr 1
+      omega
+
+/-- the selector of the deterministic branch: which active destabilizers anticommute with the observable -/
+def detSel (st : State) (obs : PStr) : List Bool := (st.rows.drop (st.N + st.r)).map fun R => anti R.g obs
+
+theorem length_detSel (st : State) (n : Nat) (h : TabInv st n) (obs : PStr) :
+    (detSel st obs).length = st.active.length := by
+  rw [St.length_active st n h]
+  simp [detSel, St.tabInv_N st n h, h.1]; omega
+
+theorem rowAt_take (T : List Pauli) (m i : Nat) (h : i < m) : rowAt (T.take m) i = rowAt T i := by
+  simp only [rowAt, List.getD_eq_getElem?_getD]
+  rw [List.getElem?_take_of_lt h]
+
+theorem rowAt_drop (T : List Pauli) (m i : Nat) : rowAt (T.drop m) i = rowAt T (m + i) := by
+  simp only [rowAt, List.getD_eq_getElem?_getD, List.getElem?_drop]
+
+/-- **deterministic branch**: when no row below `n + r` anticommutes with the observable, the scan accumulates a
+    combination of the active rows -/
+theorem scanAcc_eq_combine (st : State) (n : Nat) (obs : PStr) (h : TabInv st n)
+    (hclean : ∀ i, i < n + st.r → anti (gAt st.rows i) obs = false) :
+    scanAcc st.rows obs n 0 st.rows ⟨idStr n, 0⟩ = combine st.N (detSel st obs) st.active := by
+  have hN := St.tabInv_N st n h
+  have hl := St.length_active st n h
+  have hsplit : st.rows = st.rows.take (n + st.r) ++ st.rows.drop (n + st.r) := (List.take_append_drop _ _).symm
+  have hr := h.2.1
+  have hlen := h.1
+  conv => lhs; arg 5; rw [hsplit]
+  rw [scanAcc_append, scanAcc_clean _ _ _ (st.rows.take (n + st.r))]
+  · unfold combine detSel
+    rw [hN]
+    apply scanAcc_eq_combineAux
+    · rw [hl]; simp [hlen]; omega
+    · intro k hk
+      have hk' : k < n - st.r := by simp [hlen] at hk; omega
+      rw [St.rowAt_active st n h k hk']
+      congr 1
+      simp [hlen]; omega
+  · intro i hi
+    have hi' : i < n + st.r := by simp at hi; omega
+    rw [rowAt_take _ _ _ hi']
+    exact hclean i hi'
+
+/-- **deterministic branch, summary**: the accumulated product has the string of the observable, an even phase in
+    `[0, 4)`, and is a stabilizer -/
+theorem det_spec (st : State) (n : Nat) (obs : PStr) (h : TabInv st n) (ho : obs.length = n)
+    (hclean : ∀ i, i < n + st.r → anti (gAt st.rows i) obs = false) :
+    (scanAcc st.rows obs n 0 st.rows ⟨idStr n, 0⟩).g = obs ∧
+    (scanAcc st.rows obs n 0 st.rows ⟨idStr n, 0⟩).p % 2 = 0 ∧
+    (0 ≤ (scanAcc st.rows obs n 0 st.rows ⟨idStr n, 0⟩).p ∧ (scanAcc st.rows obs n 0 st.rows ⟨idStr n, 0⟩).p < 4) ∧
+    InGroup st (scanAcc st.rows obs n 0 st.rows ⟨idStr n, 0⟩) := by
+  have hin : InGroup st (scanAcc st.rows obs n 0 st.rows ⟨idStr n, 0⟩) := by
+    rw [scanAcc_eq_combine st n obs h hclean]
+    exact ⟨detSel st obs, length_detSel st n h obs, PEq.refl _⟩
+  refine ⟨scanAcc_g_eq_obs st n obs h ho hclean, inGroup_even st n h hin, ?_, hin⟩
+  rw [scanAcc_eq_combine st n obs h hclean]
+  unfold combine
+  exact combineAux_p_range _ _ _ (by simp)
+
+/-- a string that commutes with every row below `n + r` is the string of a stabilizer -/
+theorem inGroup_of_comm_low (st : State) (n : Nat) (g : PStr) (h : TabInv st n) (hg : g.length = n)
+    (hclean : ∀ i, i < n + st.r → anti (gAt st.rows i) g = false) :
+    ∃ P : Pauli, InGroup st P ∧ P.g = g := by
+  obtain ⟨h1, _, _, h4⟩ := det_spec st n g h hg hclean
+  exact ⟨_, h4, h1⟩
+
+/-- a row below `n + r` that anticommutes with `g` excludes `± g` from the group -/
+theorem not_inGroup_of_anti (st : State) (n : Nat) (h : TabInv st n) (P : Pauli) (j : Nat) (hj : j < n + st.r)
+    (ha : anti (gAt st.rows j) P.g = true) : ¬ InGroup st P := by
+  intro hP
+  have := inGroup_comm_low st n h hP j hj
+  rw [acq_symm, (anti_iff _ _).1 ha] at this
+  exact absurd this (by omega)
+
+/-! ## §4 the loop of `stabilizer_expect` -/
+
+theorem expectAux_clean (T0 : List Pauli) (obs : PStr) (N r : Nat) : ∀ (rows : List Pauli) (j : Nat) (acc : Pauli),
+    (∀ i, j + i < N + r → anti (rowAt rows i).g obs = false) →
+    expectAux T0 obs N r j rows acc = some (scanAcc T0 obs N j rows acc) := by
+  intro rows
+  induction rows with
+  | nil => intro j acc _; rfl
+  | cons R rs ih =>
+    intro j acc hc
+    have hc' : ∀ i, j + 1 + i < N + r → anti (rowAt rs i).g obs = false := by
+      intro i hi
+      have := hc (i + 1) (by omega)
+      rwa [rowAt_cons_succ] at this
+    simp only [expectAux, scanAcc_cons]
+    by_cases ha : anti R.g obs = true
+    · have hj : ¬ j < N + r := by
+        intro hj
+        have := hc 0 (by omega)
+        rw [rowAt_cons_zero, ha] at this
+        exact absurd this (by simp)
+      simp only [ha, hj, if_true, if_false]
+      rw [ih (j + 1) _ hc']
+      rfl
+    · have ha' : anti R.g obs = false := by simpa using ha
+      simp only [ha', Bool.false_eq_true, if_false]
+      exact ih (j + 1) acc hc'
+
+theorem expectAux_dirty (T0 : List Pauli) (obs : PStr) (N r : Nat) : ∀ (rows : List Pauli) (j : Nat) (acc : Pauli)
+    (i : Nat), j + i < N + r → anti (rowAt rows i).g obs = true →
+    expectAux T0 obs N r j rows acc = none := by
+  intro rows
+  induction rows with
+  | nil =>
+    intro j acc i _ ha
+    rw [rowAt_of_le [] i (by simp), anti_nil_left] at ha
+    exact absurd ha (by simp)
+  | cons R rs ih =>
+    intro j acc i hi ha
+    simp only [expectAux]
+    by_cases hR : anti R.g obs = true
+    · have hj : j < N + r := by omega
+      simp only [hR, hj, if_true]
+    · have hR' : anti R.g obs = false := by simpa using hR
+      simp only [hR', Bool.false_eq_true, if_false]
+      cases i with
+      | zero => rw [rowAt_cons_zero] at ha; exact absurd ha hR
+      | succ i =>
+        rw [rowAt_cons_succ] at ha
+        exact ih (j + 1) acc i (by omega) ha
+
+/-- `expect1` in the two cases of the scan -/
+theorem expect1_cases (st : State) (obs : Pauli) :
+    ((∃ i, i < st.N + st.r ∧ anti (gAt st.rows i) obs.g = true) ∧ expect1 st obs = 0) ∨
+    ((∀ i, i < st.N + st.r → anti (gAt st.rows i) obs.g = false) ∧
+      expect1 st obs =
+        if (((scanAcc st.rows obs.g st.N 0 st.rows ⟨idStr st.N, 0⟩).p - obs.p) % 4) / 2 % 2 = 0 then 1 else -1) := by
+  rcases exists_first (fun i => anti (gAt st.rows i) obs.g) (st.N + st.r) with hc | ⟨p, hp, ha, _⟩
+  · refine Or.inr ⟨hc, ?_⟩
+    unfold expect1
+    rw [expectAux_clean _ _ _ _ _ _ _ (fun i hi => hc i (by omega))]
+  · refine Or.inl ⟨⟨p, hp, ha⟩, ?_⟩
+    unfold expect1
+    rw [expectAux_dirty _ _ _ _ _ _ _ p (by omega) ha]
+
+theorem isMeasPivot_lt {st : State} {obs : PStr} {p : Nat} (h : IsMeasPivot st obs p) : p < st.N + st.r := by
+  rcases h.2 with ⟨_, h2, _⟩ | ⟨h1, _, _⟩ <;> omega
+
+/-- `measure1` under the invariant: a pivot (random outcome), or the deterministic branch (the assertion holds) -/
+theorem measure1_cases_inv (st : State) (n : Nat) (obs : Pauli) (coin : Bool) (h : TabInv st n)
+    (ho : obs.g.length = n) :
+    (∃ p, IsMeasPivot st obs.g p ∧ p < n + st.r ∧
+      measure1 st obs coin =
+        .ok (pivotState st obs.g true p (if coin then 2 else 0),
+          (((if coin then 2 else 0) - obs.p) % 4) / 2, true)) ∨
+    ((∀ i, i < n + st.r → anti (gAt st.rows i) obs.g = false) ∧
+      measure1 st obs coin =
+        .ok (st, (((scanAcc st.rows obs.g n 0 st.rows ⟨idStr n, 0⟩).p - obs.p) % 4) / 2, false)) := by
+  have hN := h.N_eq
+  rcases measure1_cases st obs coin with ⟨p, hp, he⟩ | ⟨hc, he⟩
+  · exact Or.inl ⟨p, hp, by have := isMeasPivot_lt hp; rwa [hN] at this, he⟩
+  · rw [hN] at hc he
+    rw [if_pos (scanAcc_g_eq_obs st n obs.g h ho hc)] at he
+    exact Or.inr ⟨hc, he⟩
+
+/-! ## §5 the post-measurement state, row by row -/
+
+theorem inGroup_length (st : State) (n : Nat) (h : TabInv st n) {P : Pauli} (hP : InGroup st P) :
+    P.g.length = n := by
+  obtain ⟨c, _, eP⟩ := hP
+  rw [← eP.1]
+  unfold combine
+  exact Tr.length_combineAux n c st.active _ (St.active_rows_length st n h)
+    (by rw [St.tabInv_N st n h]; exact length_idStr n)
+
+theorem pivotState_eq (st : State) (n : Nat) (obs : PStr) (ph : Bool) (p : Nat) (c : Int) (h : TabInv st n) :
+    pivotState st obs ph p c =
+      ⟨setP (install (st.rows.mapIdx (updRow obs n ph p (rowAt st.rows p))) obs n st.r p (rowAt st.rows p).g).1
+        (installSlot n st.r p) c, installRank n st.r p⟩ := by
+  unfold pivotState; rw [h.N_eq]
+
+/-- in the rank-dropping case the slot permutation of `install` fixes the active stabilizer slots -/
+theorem installPerm_active_fix (n r p k : Nat) (hr : r ≤ n) (hp : p < n + r) (_hc : ¬ (r ≤ p ∧ p < n))
+    (hk1 : r ≤ k) (hk2 : k < n) : installPerm n r p k = k := by
+  have h1 := partner_cases n p (by omega)
+  have h2 := partner_of_lt n (r - 1) (by omega)
+  unfold installPerm swp
+  rw [h2]
+  generalize partner n p = q at h1 ⊢
+  repeat' split
+  all_goals omega
+
+/-- slots below `n + r'` of the new tableau come from the pivot pair or from slots below `n + r` -/
+theorem installPerm_low (n r p j : Nat) (hr : r ≤ n) (hp : p < n + r) (hj : j < n + installRank n r p) :
+    installPerm n r p j = p ∨ installPerm n r p j = partner n p ∨ installPerm n r p j < n + r := by
+  have h1 := partner_cases n p (by omega)
+  have h2 := partner_of_lt n (r - 1) (by omega)
+  unfold installRank at hj
+  unfold installPerm swp
+  rw [h2]
+  generalize partner n p = q at h1 ⊢
+  split at hj
+  all_goals repeat' split
+  all_goals omega
+
+/-- the partner of the observable's slot holds the old pivot string -/
+theorem installPerm_slot_partner (n r p : Nat) (hr : r ≤ n) (hp : p < n + r) :
+    installPerm n r p (installSlot n r p + n) = partner n p := by
+  have hp2 : p < 2 * n := by omega
+  have hr' : r - 1 < 2 * n := by omega
+  have hs := (installSlot_active n r p hr hp).2
+  have hJ := installPerm_J n r p hp2 hr' (installSlot n r p) (installSlot n r p + n) (by omega) (by omega)
+  rw [installPerm_slot n r p hr'] at hJ
+  have h1 : J n (installSlot n r p) (installSlot n r p + n) = 1 := by
+    unfold J; rw [if_pos (Or.inl rfl)]
+  rw [h1] at hJ
+  exact (J_eq_one_iff n p _ hp2 (installPerm_lt n r p _ hp2 hr' (by omega))).1 hJ
+
+/-- **the state after a random-outcome measurement, row by row**: rank, length, strings (pivot update followed
+    by the slot permutation), phases -/
+theorem pivotState_spec (st : State) (n : Nat) (obs : PStr) (p : Nat) (c : Int) (h : TabInv st n)
+    (hp : p < n + st.r) :
+    (pivotState st obs true p c).r = installRank n st.r p ∧
+    (pivotState st obs true p c).rows.length = 2 * n ∧
+    (∀ k, k < 2 * n → gAt (pivotState st obs true p c).rows k
+        = pivF n p obs (gAt st.rows) (installPerm n st.r p k)) ∧
+    (∀ k, k < 2 * n → (rowAt (pivotState st obs true p c).rows k).p
+        = if k = installSlot n st.r p then c else (updRow obs n true p (rowAt st.rows p) k (rowAt st.rows k)).p) := by
+  obtain ⟨hl, hr, hg, hh⟩ := (tabInv_iff st n).1 h
+  have hp2 : p < 2 * n := by omega
+  have hr' : st.r - 1 < 2 * n := by omega
+  have hT1 : (st.rows.mapIdx (updRow obs n true p (rowAt st.rows p))).length = 2 * n := by
+    rw [List.length_mapIdx]; exact hl
+  obtain ⟨s1, _, _, s4, s5⟩ :=
+    install_spec (st.rows.mapIdx (updRow obs n true p (rowAt st.rows p))) obs n st.r p (rowAt st.rows p).g
+      hT1 hp2 hr'
+  rw [pivotState_eq st n obs true p c h]
+  refine ⟨rfl, by simp only [length_setP]; exact s1, fun k hk => ?_, fun k hk => ?_⟩
+  · simp only [gAt_setP]
+    rw [s5 k, installBase_scan st.rows obs n p true hl _ (installPerm_lt n st.r p k hp2 hr' hk)]
+  · simp only
+    rw [rowAt_setP_p _ _ _ _ (by rw [s1]; exact installSlot_lt n st.r p hr hp2)]
+    split
+    · rfl
+    · rw [s4 k, rowAt_mapIdx _ st.rows k (by omega)]
+
+/-- the hypotheses under which a pivot is legitimate (`stabilizer_measure` after the pre-scan, or `r = 0`) -/
+structure PivotOK (st : State) (n : Nat) (obs : PStr) (p : Nat) : Prop where
+  lt : p < n + st.r
+  anti : anti (gAt st.rows p) obs = true
+  act : ∀ k, st.r ≤ k → k < n → PC.anti (gAt st.rows k) obs = true → st.r ≤ p ∧ p < n
+
+theorem pivotOK_of_isMeasPivot (st : State) (n : Nat) (obs : PStr) (p : Nat) (h : TabInv st n)
+    (hp : IsMeasPivot st obs p) : PivotOK st n obs p := by
+  have hN := h.N_eq
+  refine ⟨by have := isMeasPivot_lt hp; rwa [hN] at this, hp.1, ?_⟩
+  intro k hk1 hk2 hk3
+  rcases hp.2 with ⟨h1, h2, _⟩ | ⟨_, h2, _⟩
+  · exact ⟨h1, by omega⟩
+  · rw [h2 k hk1 (by omega)] at hk3; exact absurd hk3 (by simp)
+
+theorem pivotState_inv (st : State) (n : Nat) (obs : PStr) (p : Nat) (c : Int) (h : TabInv st n)
+    (ho : obs.length = n) (hk : PivotOK st n obs p) (hc : c % 2 = 0) :
+    TabInv (pivotState st obs true p c) n := by
+  rw [pivotState_eq st n obs true p c h]
+  exact pivot_install_inv st n obs true p c h ho hk.lt hk.anti hk.act hc
+
+/-- the observable, with the phase written by `setP`, is an active row of the new state -/
+theorem pivotState_slot (st : State) (n : Nat) (obs : PStr) (p : Nat) (c : Int) (h : TabInv st n)
+    (hp : p < n + st.r) :
+    rowAt (pivotState st obs true p c).rows (installSlot n st.r p) = ⟨obs, c⟩ := by
+  obtain ⟨_, _, s3, s4⟩ := pivotState_spec st n obs p c h hp
+  have hr := h.2.1
+  have hs := installSlot_lt n st.r p hr (by omega)
+  apply pauli_eq
+  · have := s3 _ hs
+    unfold gAt at this
+    rw [this, installPerm_slot n st.r p (by omega), pivF_pivot]
+  · rw [s4 _ hs, if_pos rfl]
+
+/-- **after the measurement the observable with the coin's sign is a stabilizer** -/
+theorem pivotState_obs_inGroup (st : State) (n : Nat) (obs : PStr) (p : Nat) (c : Int) (h : TabInv st n)
+    (ho : obs.length = n) (hk : PivotOK st n obs p) (hc : c % 2 = 0) :
+    InGroup (pivotState st obs true p c) ⟨obs, c⟩ := by
+  have h' := pivotState_inv st n obs p c h ho hk hc
+  have hact := installSlot_active n st.r p h.2.1 hk.lt
+  have hr' := (pivotState_spec st n obs p c h hk.lt).1
+  have := inGroup_active_row _ n h' (installSlot n st.r p) (by rw [hr']; exact hact.1) hact.2
+  rwa [pivotState_slot st n obs p c h hk.lt] at this
+
+/-- the new active rows other than the observable are stabilizers of the old state -/
+theorem pivotState_row_old (st : State) (n : Nat) (obs : PStr) (p : Nat) (c : Int) (h : TabInv st n)
+    (hk : PivotOK st n obs p) (k : Nat) (hk1 : installRank n st.r p ≤ k) (hk2 : k < n)
+    (hk3 : k ≠ installSlot n st.r p) : InGroup st (rowAt (pivotState st obs true p c).rows k) := by
+  obtain ⟨_, _, s3, s4⟩ := pivotState_spec st n obs p c h hk.lt
+  have hr := h.2.1
+  have hg := h.gram
+  have hk2n : k < 2 * n := by omega
+  have e3 := s3 k hk2n
+  have e4 := s4 k hk2n
+  rw [if_neg hk3] at e4
+  by_cases hc : st.r ≤ p ∧ p < n
+  · -- active pivot: row `k` is the old row, times the pivot row if it anticommutes with the observable
+    simp only [installRank, installSlot, if_pos hc] at hk1 hk3
+    have hperm : installPerm n st.r p k = k := by unfold installPerm; rw [if_pos hc]
+    have hkq : k ≠ partner n p := by rw [partner_of_lt n p hc.2]; omega
+    rw [hperm, pivF_other n p obs _ k hk3 hkq] at e3
+    have hrow : rowAt (pivotState st obs true p c).rows k
+        = updRow obs n true p (rowAt st.rows p) k (rowAt st.rows k) := by
+      apply pauli_eq
+      · rw [updRow_g]
+        unfold gAt at e3
+        rw [e3]
+        by_cases ha : PC.anti (rowAt st.rows k).g obs = true
+        · rw [if_pos ha, if_pos ⟨hk3, ha⟩]
+        · rw [if_neg ha, if_neg (fun hh => ha hh.2)]
+      · exact e4
+    rw [hrow]
+    have hRk := inGroup_active_row st n h k hk1 hk2
+    by_cases ha : PC.anti (rowAt st.rows k).g obs = true
+    · rw [updRow_of_anti _ _ _ _ _ _ _ hk3 ha]
+      have : pivRow n true (rowAt st.rows p) k (rowAt st.rows k) = mul (rowAt st.rows k) (rowAt st.rows p) := by
+        unfold pivRow mul
+        simp [hk2]
+      rw [this]
+      exact inGroup_mul h hRk (inGroup_active_row st n h p hc.1 hc.2)
+    · rw [updRow_of_comm _ _ _ _ _ _ _ (by simpa using ha)]
+      exact hRk
+  · -- standby pivot: the active rows commute with the observable and are untouched
+    simp only [installRank, installSlot, if_neg hc] at hk1 hk3
+    have hrk : st.r ≤ k := by omega
+    have hperm := installPerm_active_fix n st.r p k hr hk.lt hc hrk hk2
+    have hkp : k ≠ p := by
+      intro e; exact hc ⟨by omega, by omega⟩
+    have hkq : k ≠ partner n p := by
+      have := partner_cases n p (by have := hk.lt; omega)
+      have := hk.lt
+      omega
+    have hcomm : PC.anti (gAt st.rows k) obs = false := by
+      cases hx : PC.anti (gAt st.rows k) obs with
+      | false => rfl
+      | true => exact absurd (hk.act k hrk hk2 hx) hc
+    rw [hperm, pivF_other n p obs _ k hkp hkq, hcomm] at e3
+    simp only [Bool.false_eq_true, if_false] at e3
+    rw [updRow_of_comm _ _ _ _ _ _ _ (by simpa [gAt] using hcomm)] at e4
+    have hrow : rowAt (pivotState st obs true p c).rows k = rowAt st.rows k := pauli_eq _ _ e3 e4
+    rw [hrow]
+    exact inGroup_active_row st n h k hrk hk2
+
+/-- a string commuting with the observable and with the old rows below `n + r` commutes with the new rows
+    below `n + r'` -/
+theorem pivotState_comm_low (st : State) (n : Nat) (obs : PStr) (p : Nat) (c : Int) (h : TabInv st n)
+    (hp : p < n + st.r) (g : PStr) (hgl : g.length = n) (hgo : acq g obs = 0)
+    (hlow : ∀ m, m < n + st.r → acq g (gAt st.rows m) = 0) (j : Nat)
+    (hj : j < n + (pivotState st obs true p c).r) : acq g (gAt (pivotState st obs true p c).rows j) = 0 := by
+  obtain ⟨s1, _, s3, _⟩ := pivotState_spec st n obs p c h hp
+  have hr := h.2.1
+  have hg := h.gram
+  rw [s1] at hj
+  have hj2 : j < 2 * n := by have := installRank_le n st.r p; omega
+  have hp2 : p < 2 * n := by omega
+  have hσ := installPerm_lt n st.r p j hp2 (by omega) hj2
+  rw [s3 j hj2]
+  have hcase := installPerm_low n st.r p j hr hp hj
+  generalize installPerm n st.r p j = m at hσ hcase
+  by_cases h1 : m = p
+  · rw [h1, pivF_pivot]; exact hgo
+  · by_cases h2 : m = partner n p
+    · rw [h2, pivF_partner n p obs _ hp2]; exact hlow p hp
+    · have hm : m < n + st.r := by
+        rcases hcase with e | e | e
+        · exact absurd e h1
+        · exact absurd e h2
+        · exact e
+      rw [pivF_other n p obs _ m h1 h2]
+      split
+      · rw [acq_xorS_right _ _ _ (by rw [hg.1 m hσ, hg.1 p hp2]), hlow m hm, hlow p hp]; rfl
+      · exact hlow m hm
+
+/-- **every former stabilizer that commutes with the observable is a stabilizer of the post-measurement state,
+    with the same sign** -/
+theorem pivotState_keeps (st : State) (n : Nat) (obs : PStr) (p : Nat) (c : Int) (h : TabInv st n)
+    (ho : obs.length = n) (hk : PivotOK st n obs p) (hc : c % 2 = 0) (P : Pauli) (hP : InGroup st P)
+    (hcomm : acq P.g obs = 0) : InGroup (pivotState st obs true p c) P := by
+  have h' := pivotState_inv st n obs p c h ho hk hc
+  obtain ⟨s1, _, s3, _⟩ := pivotState_spec st n obs p c h hk.lt
+  have hr := h.2.1
+  have hPl := inGroup_length st n h hP
+  have hact := installSlot_active n st.r p hr hk.lt
+  have hlow : ∀ m, m < n + st.r → acq P.g (gAt st.rows m) = 0 := fun m hm => inGroup_comm_low st n h hP m hm
+  -- the string of `P` is the string of a stabilizer `P'` of the new state
+  obtain ⟨P', hP', hg'⟩ := inGroup_of_comm_low (pivotState st obs true p c) n P.g h' hPl (by
+    intro j hj
+    rw [anti_eq_false_iff, acq_symm]
+    exact pivotState_comm_low st n obs p c h hk.lt P.g hPl hcomm hlow j hj)
+  obtain ⟨c', hc', e'⟩ := hP'
+  have hlen' := St.length_active _ n h'
+  have hN' := St.tabInv_N _ n h'
+  -- the selector does not use the observable's slot
+  have hsel : c'.getD (installSlot n st.r p - installRank n st.r p) false = false := by
+    have hpart := St.acq_combine_partner _ n h' c' (hc'.trans hlen')
+      (installSlot n st.r p - installRank n st.r p) (by rw [s1]; omega)
+    have hidx : n + (pivotState st obs true p c).r + (installSlot n st.r p - installRank n st.r p)
+        = installSlot n st.r p + n := by rw [s1]; omega
+    have hstr : (rowAt (pivotState st obs true p c).rows (installSlot n st.r p + n)).g = gAt st.rows p := by
+      have := s3 (installSlot n st.r p + n) (by omega)
+      unfold gAt at this ⊢
+      rw [this, installPerm_slot_partner n st.r p hr hk.lt]
+      exact pivF_partner n p obs _ (by have := hk.lt; omega)
+    rw [hidx, hstr, e'.1, hg', hlow p hk.lt] at hpart
+    cases hx : c'.getD (installSlot n st.r p - installRank n st.r p) false with
+    | false => rfl
+    | true => rw [hx] at hpart; exact absurd hpart (by decide)
+  -- hence `P'` is a product of stabilizers of the old state
+  have hin : InGroup st (combine (pivotState st obs true p c).N c' (pivotState st obs true p c).active) := by
+    unfold combine
+    apply combineAux_inGroup st n h
+    · rw [hN']; exact inGroup_one st n h
+    · intro k hk1 hk2
+      rw [hlen', s1] at hk1
+      have hrow := St.rowAt_active _ n h' k (by rw [s1]; exact hk1)
+      rw [hrow, s1]
+      apply pivotState_row_old st n obs p c h hk _ (by omega) (by omega)
+      intro e
+      have : k = installSlot n st.r p - installRank n st.r p := by omega
+      rw [this, hsel] at hk2
+      exact absurd hk2 (by simp)
+  have hph := inGroup_phase_unique st n h hin hP (e'.1.trans hg')
+  exact ⟨c', hc', ⟨e'.1.trans hg', hph⟩⟩
+
+/-- the rank after a random-outcome measurement -/
+theorem pivotState_rank (st : State) (n : Nat) (obs : PStr) (p : Nat) (c : Int) (h : TabInv st n)
+    (hp : IsMeasPivot st obs p) :
+    ((∀ R ∈ st.active, acq R.g obs = 0) → (pivotState st obs true p c).r + 1 = st.r) ∧
+    (¬ (∀ R ∈ st.active, acq R.g obs = 0) → (pivotState st obs true p c).r = st.r) := by
+  have hN := h.N_eq
+  have hr := h.2.1
+  have hlt := isMeasPivot_lt hp
+  rw [hN] at hlt
+  rw [(pivotState_spec st n obs p c h hlt).1]
+  unfold installRank
+  rcases hp.2 with ⟨h1, h2, _⟩ | ⟨_, h2, _⟩
+  · rw [hN] at h2
+    rw [if_pos ⟨h1, h2⟩]
+    refine ⟨fun hall => ?_, fun _ => rfl⟩
+    have hmem : rowAt st.rows p ∈ st.active := by
+      have := St.rowAt_active st n h (p - st.r) (by omega)
+      rw [show st.r + (p - st.r) = p by omega] at this
+      rw [← this]
+      exact rowAt_mem _ _ (by rw [St.length_active st n h]; omega)
+    have := hall _ hmem
+    have ha := (anti_iff _ _).1 hp.1
+    unfold gAt at ha
+    omega
+  · rw [hN] at h2
+    have hnot : ¬ (st.r ≤ p ∧ p < n) := by
+      intro hc
+      have := h2 p hc.1 hc.2
+      rw [hp.1] at this
+      exact absurd this (by simp)
+    rw [if_neg hnot]
+    refine ⟨fun _ => by omega, fun hnall => ?_⟩
+    exfalso
+    apply hnall
+    intro R hR
+    obtain ⟨k, hk, rfl⟩ := active_row_exists st n h R hR
+    exact (anti_eq_false_iff _ _).1 (h2 (st.r + k) (by omega) (by omega))
+
+/-- measurement keeps the tableau invariant (as `C05_measure1_inv`) -/
+theorem measure1_inv (st st' : State) (n : Nat) (obs : Pauli) (coin : Bool) (out : Int) (rnd : Bool)
+    (h : TabInv st n) (ho : obs.g.length = n) (hm : measure1 st obs coin = .ok (st', out, rnd)) :
+    TabInv st' n := by
+  rcases measure1_cases_inv st n obs coin h ho with ⟨p, hpiv, _, he⟩ | ⟨_, he⟩
+  · rw [he] at hm
+    injection hm with hm
+    injection hm with h1 _
+    subst h1
+    exact pivotState_inv st n obs.g p _ h ho (pivotOK_of_isMeasPivot st n obs.g p h hpiv)
+      (by cases coin <;> rfl)
+  · rw [he] at hm
+    injection hm with hm
+    injection hm with h1 _
+    subst h1
+    exact h
+
+/-- **a stabilizer `(−1)^out O` is measured with certainty, outcome `out`, state unchanged** -/
+theorem measure1_of_inGroup (st : State) (n : Nat) (O : Pauli) (coin : Bool) (out : Int) (h : TabInv st n)
+    (ho : O.g.length = n) (hout : out = 0 ∨ out = 1) (hin : InGroup st ⟨O.g, O.p + 2 * out⟩) :
+    measure1 st O coin = .ok (st, out, false) := by
+  rcases measure1_cases_inv st n O coin h ho with ⟨p, hpiv, hpl, _⟩ | ⟨hc, he⟩
+  · exact absurd hin (not_inGroup_of_anti st n h _ p hpl hpiv.1)
+  · obtain ⟨d1, _, _, d4⟩ := det_spec st n O.g h ho hc
+    have hph := inGroup_phase_unique st n h d4 hin d1
+    simp only at hph
+    rw [he]
+    have : (((scanAcc st.rows O.g n 0 st.rows ⟨idStr n, 0⟩).p - O.p) % 4) / 2 = out := by omega
+    rw [this]
+
+/-- **`projTrace1` row by row** -/
+theorem projTrace1_cases (st : State) (obs : Pauli) (t : Dy) :
+    (∃ p, p < st.N + st.r ∧ anti (gAt st.rows p) obs.g = true ∧
+      (∀ i, i < p → anti (gAt st.rows i) obs.g = false) ∧
+      projTrace1 st obs t = .ok (pivotState st obs.g true p obs.p, ⟨t.zero, t.k + 1⟩)) ∨
+    ((∀ i, i < st.N + st.r → anti (gAt st.rows i) obs.g = false) ∧
+      projTrace1 st obs t =
+        if (scanAcc st.rows obs.g st.N 0 st.rows ⟨idStr st.N, 0⟩).g = obs.g then
+          .ok (st, if (scanAcc st.rows obs.g st.N 0 st.rows ⟨idStr st.N, 0⟩).p = obs.p then t else ⟨true, t.k⟩)
+        else .error .assertion) := by
+  rcases scan_cases st.rows obs.g st.N (st.N + st.r) true with ⟨hc, hs⟩ | ⟨p, hp1, _, hp3, hp4, hs⟩
+  · refine Or.inr ⟨hc, ?_⟩
+    unfold projTrace1
+    simp only [hs]
+  · refine Or.inl ⟨p, hp1, hp3, hp4, ?_⟩
+    unfold projTrace1 pivotState
+    simp only [hs]
+    rw [(install_rank_slot _ _ _ _ _ _).1, (install_rank_slot _ _ _ _ _ _).2]
+
+end Ms
 end PC
